@@ -638,6 +638,9 @@ class Tensor:
                 shape.append(cur)
                 ones.append(False)
 
+        if n == m and not _any(ones):
+            return self            # nothing to expand: the same view (in-place writes go to the same storage)
+
         def fwd(idx):
             sub = idx[n - m:] if m else ()
             return tuple(tm.IZERO if o else i for o, i in zip(ones, sub))
@@ -1584,7 +1587,28 @@ def quantile(t, q, dim=None, keepdim=False):
 
 # ------------------------------------------------------------------ indexing
 
+class _MaskedSelection:
+    """`src[mask]` with a boolean mask: the selected elements in row-major order.  Its length depends on the data, so it is not
+    a tensor of the shim; the only supported use is the idiom `dst[mask] = src[mask]` (element-wise conditional copy)."""
+    def __init__(self, src, mask):
+        self.src, self.mask = src, mask
+
+    def __getattr__(self, name):
+        raise Unsupported('boolean-mask selection used outside `dst[mask] = src[mask]` (%s)' % name)
+
+
+def _same_mask(a, b):
+    if a is b:
+        return True
+    if len(a._shape) != len(b._shape) or not _all(same_int(x_, y_) for x_, y_ in zip(a._shape, b._shape)):
+        return False
+    idx = tuple(tm.var('mi%d' % k_, 'I') for k_ in range(len(a._shape)))
+    return a.at(idx) is b.at(idx)
+
+
 def _getitem(t, key):
+    if isinstance(key, Tensor) and key.dtype.cat == 0 and len(key._shape) == len(t._shape):
+        return _MaskedSelection(t, key)
     if not isinstance(key, tuple):
         key = (key,)
     # boolean-mask indexing is out of reach
@@ -1742,6 +1766,14 @@ def _setitem(t, key, value):
         shape = _bcast_shapes([t._shape, mask._shape])
         if len(shape) != len(t._shape) or not _all(same_int(a_, b_) for a_, b_ in zip(shape, t._shape)):
             raise Unsupported('boolean mask assignment with a mask larger than the tensor')
+        if isinstance(value, _MaskedSelection):
+            # dst[mask] = src[mask]: element-wise conditional copy, in place
+            if not _same_mask(mask, value.mask):
+                raise Unsupported('boolean mask assignment from a selection under a different mask')
+            if not _all(same_int(a_, b_) for a_, b_ in zip(value.src._shape, t._shape)) or len(value.src._shape) != len(t._shape):
+                raise Unsupported('boolean mask assignment between different shapes')
+            t._assign_all(where(mask, value.src, t), 'masked setitem')
+            return
         val = as_tensor_like(value, t)
         if val.numel_static() != 1:
             raise Unsupported('boolean mask assignment of a non-scalar')
@@ -1773,6 +1805,10 @@ def _setitem(t, key, value):
 
 
 # ------------------------------------------------------------------ factories
+
+def broadcast_shapes(*shapes):
+    return Size(_bcast_shapes([tuple(sh) for sh in shapes]))
+
 
 def _shape_arg(size):
     if len(size) == 1 and isinstance(size[0], (tuple, list)):
